@@ -105,6 +105,10 @@ def run_traced(mod, path, prog, k, sample_rate=None, with_flight=True, rng_seed=
                 residue += [x for x in (val.keys() if isinstance(val, dict) else val) if isinstance(x, _types.FrameType)]
                 if isinstance(val, dict):
                     residue += [x for x in val.values() if isinstance(x, _types.FrameType)]
+    if fl:
+        # what ended on a thread without the profile function is out of the tracer's sight: no trace is due for it, and the
+        # frame it still remembers is not residue it could have cleared
+        residue = [fr for fr in residue if id(fr) not in fl.off_thread_ids]
     return (fl.done if fl else None), logger.traces, residue, results, logger.flushes, (fl.live if fl else {})
 
 
@@ -187,6 +191,10 @@ def align(res, G, L, residue, live, prog, k):
         L = [t for t in L if id(getattr(t.func, "__code__", None)) not in codes]
         bad.append(("caught-throw-reyields-none-at-same-yield", f"{corner[0]['qual']}: an exception thrown into the suspended generator was caught "
                     "there and it yielded None again from the same yield instruction; its trace may be logged early and incomplete"))
+    noff = sum(1 for g in G if g.get("off_thread"))
+    if noff:
+        res.count("completions_on_another_thread", noff)
+        G = [g for g in G if not g.get("off_thread")]
     for g in G:
         res.count("completions")
         if g["qual"].endswith("<locals>.depth"):
@@ -257,6 +265,9 @@ def work(p):
         if spec.get("prestart"):
             opts["prestart"] = True
             res.count("prestart_programs")
+        if spec.get("threads"):
+            opts["threads"] = True
+            res.count("thread_programs")
         if spec.get("literal"):
             prog = dict(spec["literal"], name=spec["name"])
             res.count("pinned_witnesses")
@@ -312,7 +323,7 @@ def specs(ck, n, ks, abandon_frac=0.1, values_frac=0.15):
         r = ck.rng("prog", i)
         out.append({
             "name": f"vfprog_{ck.seed}_{i}", "seed": f"{ck.prop}:{ck.seed}:{i}", "k": r.choice(ks), "nfuncs": r.choice([8, 12, 16, 20]),
-            "live": r.choice([2, 4, 6]), "abandon": r.random() < abandon_frac, "values": r.random() < values_frac, "control": i % 5 == 0, "prestart": i % 7 == 3,
+            "live": r.choice([2, 4, 6]), "abandon": r.random() < abandon_frac, "values": r.random() < values_frac, "control": i % 5 == 0, "prestart": i % 7 == 3, "threads": i % 6 == 1,
         })
     return out
 
@@ -375,6 +386,7 @@ def run(ck):
     ck.need("control_runs", 20)
     ck.need("twin_cases", 1)
     ck.need("prestart_programs", 50)
+    ck.need("completions_on_another_thread", 100, "no generator was finished by a worker thread")
     ck.need("untypable_completions_without_trace", 50, "no call returned a value whose type cannot be collected")
     ck.need("self_recursive_local_function_calls", 50)
     for ek in ("exception:plain", "const-return:plain", "return:plain", "return:generator", "const-return:generator", "exception:generator",
